@@ -121,6 +121,44 @@ func CreateCallback(c gocoro.Coroutine[*t_aio.Submission, *t_aio.Completion, any
 					Timeout:   r.CreateCallback.Timeout,
 					CreatedOn: createdOn,
 				}
+			} else {
+				// No row was inserted: either the callback already exists, or the promise
+				// was completed by another coroutine after we read it. Read the promise
+				// again so that the caller is never told to wait on a promise that has
+				// completed without a callback being registered.
+				completion, err := gocoro.YieldAndAwait(c, &t_aio.Submission{
+					Kind: t_aio.Store,
+					Tags: r.Tags,
+					Store: &t_aio.StoreSubmission{
+						Transaction: &t_aio.Transaction{
+							Commands: []*t_aio.Command{
+								{
+									Kind: t_aio.ReadPromise,
+									ReadPromise: &t_aio.ReadPromiseCommand{
+										Id: r.CreateCallback.PromiseId,
+									},
+								},
+							},
+						},
+					},
+				})
+				if err != nil {
+					slog.Error("failed to read promise", "req", r, "err", err)
+					return nil, t_api.NewError(t_api.StatusAIOStoreError, err)
+				}
+
+				util.Assert(completion.Store != nil, "completion must not be nil")
+				util.Assert(len(completion.Store.Results) == 1, "completion must have one result")
+
+				result := completion.Store.Results[0].ReadPromise
+				util.Assert(result != nil, "result must not be nil")
+				util.Assert(result.RowsReturned == 1, "promise must still exist")
+
+				p, err = result.Records[0].Promise()
+				if err != nil {
+					slog.Error("failed to parse promise record", "record", result.Records[0], "err", err)
+					return nil, t_api.NewError(t_api.StatusAIOStoreError, err)
+				}
 			}
 		}
 
